@@ -36,9 +36,25 @@ def make(series, qual, what):
         n = st0.length(st0.read(a["self"], "_components").term)
         return [(f"result = share-weighted average of the components' {what}", res.term == W(n) / z3.ToReal(S(n)))]
 
+    def accumulators():
+        """names of the two running sums, found by role (robust against renaming): the `+=` targets of the component loop, the one whose increment is a product first"""
+        import ast
+        from pyvc.src import get_src
+        fn = get_src().funcs[qual][0]
+        loops = [n for n in ast.walk(fn) if isinstance(n, ast.For)]
+        if len(loops) != 1:
+            raise Unsupported(f"anchor-lost: the component loop of {qual}")
+        augs = [n for n in ast.walk(loops[0]) if isinstance(n, ast.AugAssign) and isinstance(n.op, ast.Add) and isinstance(n.target, ast.Name)]
+        prod = [a.target.id for a in augs if any(isinstance(x, ast.Mult) for x in ast.walk(a.value))]
+        plain = [a.target.id for a in augs if a.target.id not in prod]
+        if len(prod) != 1 or len(plain) != 1:
+            raise Unsupported(f"anchor-lost: value / share accumulators of {qual}")
+        return prod[0], plain[0]
+
     def inv(st, ctx):
         i = ctx["i"]
-        return [("total_value = W(i)", to_real(st.env["total_value"]) == W(i)), ("total_shares = S(i)", st.env["total_shares"].term == S(i))]
+        tv, ts = accumulators()
+        return [("total_value = W(i)", to_real(st.env[tv]) == W(i)), ("total_shares = S(i)", st.env[ts].term == S(i))]
     spec = FSpec(qual, pre=pre, post=post, props=("C17",))
     return spec, {0: LoopSpec(inv, header="self._components", name="components")}
 
